@@ -278,12 +278,71 @@ func (pkg *pkg) Delete() error {
 	return os.Remove(filename)
 }
 
+// maxTypeDepth bounds how deep the type expressions are nested that functions are generated for.
+const maxTypeDepth = 100
+
+// typeDepth returns how deep a type expression is nested. Named types without type arguments count as leaves.
+func typeDepth(typ types.Type) int {
+	deepest := func(ts ...types.Type) int {
+		d := 0
+		for _, t := range ts {
+			if td := typeDepth(t); td > d {
+				d = td
+			}
+		}
+		return d
+	}
+	switch t := typ.(type) {
+	case *types.Named:
+		args := t.TypeArgs()
+		ts := make([]types.Type, args.Len())
+		for i := range ts {
+			ts[i] = args.At(i)
+		}
+		if len(ts) == 0 {
+			return 0
+		}
+		return 1 + deepest(ts...)
+	case *types.Pointer:
+		return 1 + typeDepth(t.Elem())
+	case *types.Slice:
+		return 1 + typeDepth(t.Elem())
+	case *types.Array:
+		return 1 + typeDepth(t.Elem())
+	case *types.Chan:
+		return 1 + typeDepth(t.Elem())
+	case *types.Map:
+		return 1 + deepest(t.Key(), t.Elem())
+	case *types.Struct:
+		ts := make([]types.Type, t.NumFields())
+		for i := range ts {
+			ts[i] = t.Field(i).Type()
+		}
+		return 1 + deepest(ts...)
+	case *types.Tuple:
+		ts := make([]types.Type, t.Len())
+		for i := range ts {
+			ts[i] = t.At(i).Type()
+		}
+		return deepest(ts...)
+	case *types.Signature:
+		return 1 + deepest(t.Params(), t.Results())
+	}
+	return 0
+}
+
 func (pkg *pkg) Generate() (bool, error) {
 	generated := false
 	for !pkg.Done() {
 		for _, plugin := range pkg.plugins {
 			g := pkg.generators[plugin.Name()]
 			for _, typs := range g.ToGenerate() {
+				for _, typ := range typs {
+					if typeDepth(typ) > maxTypeDepth {
+						return false, fmt.Errorf("Generator Error: %s: type nested more than %d levels deep: "+
+							"a generic type that contains an ever larger instantiation of itself needs infinitely many functions", plugin.Name(), maxTypeDepth)
+					}
+				}
 				if err := g.Generate(typs); err != nil {
 					return false, fmt.Errorf("Generator Error: %s:%v", plugin.Name(), err.Error())
 				}
